@@ -2,7 +2,8 @@
 \* SPARQL 1.1 algebra, the fragment sophia_sparql supports: BGP, Union, Graph, Filter, Extend,
 \* Distinct, Project.  Solutions are functions from keys <<"v", name>> to terms; results are bags,
 \* represented as sequences whose order is irrelevant.
-EXTENDS Naturals, Sequences, FiniteSets, TLC
+EXTENDS Naturals, Sequences, FiniteSets, TLC, SparqlNum
+XN == INSTANCE Xsd      \* exact digit-string arithmetic (NumEq, NumLess)
 \* SPARQL 17.3.1 lets an implementation give a value to an operator application that the standard makes a type error.
 \* LangCmpExt = TRUE: language-tagged strings are values: '=' on two different ones is false and '<' orders them by
 \* (tag, lexical form), as sophia_sparql does;
@@ -81,14 +82,24 @@ Ebv(r) == IF r.t = "bool" THEN r
           ELSE Err
 AsTerm(r) == IF r.t = "bool" THEN [k |-> "lit", lex |-> (IF r.b THEN <<116,114,117,101>> ELSE <<102,97,108,115,101>>), dt |-> XsdBoolean, lang |-> <<>>] ELSE r.v
 IsBool(x) == x.k = "lit" /\ x.lang = <<>> /\ x.dt = XsdBoolean /\ x.lex \in {<<116,114,117,101>>, <<102,97,108,115,101>>}
+\* ---- the numeric tower (comparisons only): literals of NumTable, compared after promotion to the higher of the two types ----
+NumRows(x) == {i \in 1..Len(NumTable) : NumTable[i].lex = x.lex /\ NumTable[i].dt = x.dt}
+IsTableNum(x) == x.k = "lit" /\ x.lang = <<>> /\ NumRows(x) # {}
+NumRow(x) == NumTable[CHOOSE i \in NumRows(x) : TRUE]
+TypeRank(dt) == IF dt = XsdInteger THEN 1 ELSE IF dt = Xsd(<<100,101,99,105,109,97,108>>) THEN 2 ELSE IF dt = Xsd(<<102,108,111,97,116>>) THEN 3 ELSE 4
+ValAt(r, t) == IF t <= 2 THEN r.val ELSE IF t = 3 THEN r.f32 ELSE r.f64
+PromotedPair(a, b) == LET ra == NumRow(a) rb == NumRow(b) t == IF TypeRank(a.dt) > TypeRank(b.dt) THEN TypeRank(a.dt) ELSE TypeRank(b.dt)
+                      IN <<ValAt(ra, t), ValAt(rb, t)>>
 EqV(a, b) ==    \* RDFterm-equal / value equality on the modelled value classes
   IF IsInt(a) /\ IsInt(b) THEN B(IntVal(a) = IntVal(b))
+  ELSE IF IsTableNum(a) /\ IsTableNum(b) THEN LET p == PromotedPair(a, b) IN B(XN!NumEq(p[1], p[2]))
   ELSE IF a = b THEN B(TRUE)
   ELSE IF a.k = "lit" /\ b.k = "lit" THEN (IF (IsStr(a) /\ IsStr(b)) \/ (IsBool(a) /\ IsBool(b)) THEN B(FALSE)
                                           ELSE IF LangCmpExt /\ a.lang # <<>> /\ b.lang # <<>> THEN B(FALSE)      \* language-tagged strings as values
                                           ELSE Err)
   ELSE B(FALSE)
 LtV(a, b) == IF IsInt(a) /\ IsInt(b) THEN B(IntVal(a) < IntVal(b))
+             ELSE IF IsTableNum(a) /\ IsTableNum(b) THEN LET p == PromotedPair(a, b) IN B(XN!NumLess(p[1], p[2]))
              ELSE IF IsStr(a) /\ IsStr(b) THEN B(StrLess(a.lex, b.lex, 1))
              ELSE IF SameLitExt /\ a = b /\ a.k = "lit" /\ ~IsInt(a) /\ ~IsStrLit(a) /\ ~IsBool(a) THEN B(FALSE)
              ELSE IF LangCmpExt /\ a.k = "lit" /\ b.k = "lit" /\ a.lang # <<>> /\ b.lang # <<>>
